@@ -15,7 +15,8 @@ statement in a fresh child scope of one base environment, and the *outcome class
             x := a; x f= b; x   -- only when f(a, b) succeeded: x must equal that result
   arity 1   f(a) | f ! a | f(...[a]) | a.f | a then f | f(_)(a) | [a] apply f | f of [a]
   arity 3   f(a, b, c) | f ! a, b, c | f(...[a, b, c]) | f(a, ...[b, c]) | [a, b, c] apply f | f of [a, b, c] |
-            f(_, b, c)(a) | f(a, _, c)(b) | f(a, b, _)(c) | f(_, _, c)(a, b) | f(_, b, _)(a, c) | f(..._)([a, b, c])
+            f(_, b, c)(a) | f(a, _, c)(b) | f(a, b, _)(c) | f(_, _, c)(a, b) | f(_, b, _)(a, c) | f(..._)([a, b, c]) |
+            sections mixing holes and evaluated splats: f(_, ...[b, c])(a) | f(_, b, ...[c])(a) | f(...[a], _, c)(b)
 
 fuel / depth / crash / timeout / panic on any form make the tuple inconclusive (or excluded when an
 argument is an infinite stream or a huge number), never a violation.  The plain call is evaluated first;
@@ -157,13 +158,16 @@ FORMS = {
         ("f of [a]", "{f} of [{a}]")],
     2: [("a f b", "{a} {f} {b}"), ("f(a,b)", "{f}({a}, {b})"), ("f!a,b", "{f} ! {a}, {b}"), ("a`f`b", "{a} `{f}` {b}"),
         ("f(_,b)(a)", "{f}(_, {b})({a})"), ("f(a,_)(b)", "{f}({a}, _)({b})"), ("(_ f b)(a)", "(_ {f} {b})({a})"),
-        ("(a f _)(b)", "({a} {f} _)({b})"), ("[a,b] apply f", "[{a}, {b}] apply {f}"), ("f of [a,b]", "{f} of [{a}, {b}]")],
+        ("(a f _)(b)", "({a} {f} _)({b})"), ("[a,b] apply f", "[{a}, {b}] apply {f}"), ("f of [a,b]", "{f} of [{a}, {b}]"),
+        ("f(_,...[b])(a)", "{f}(_, ...[{b}])({a})"), ("f(...[a],_)(b)", "{f}(...[{a}], _)({b})")],
     3: [("f(a,b,c)", "{f}({a}, {b}, {c})"), ("f!a,b,c", "{f} ! {a}, {b}, {c}"), ("f(...[a,b,c])", "{f}(...[{a}, {b}, {c}])"),
         ("f(a,...[b,c])", "{f}({a}, ...[{b}, {c}])"), ("[a,b,c] apply f", "[{a}, {b}, {c}] apply {f}"),
         ("f of [a,b,c]", "{f} of [{a}, {b}, {c}]"), ("f(_,b,c)(a)", "{f}(_, {b}, {c})({a})"),
         ("f(a,_,c)(b)", "{f}({a}, _, {c})({b})"), ("f(a,b,_)(c)", "{f}({a}, {b}, _)({c})"),
         ("f(_,_,c)(a,b)", "{f}(_, _, {c})({a}, {b})"), ("f(_,b,_)(a,c)", "{f}(_, {b}, _)({a}, {c})"),
-        ("f(..._)([a,b,c])", "{f}(..._)([{a}, {b}, {c}])")],
+        ("f(..._)([a,b,c])", "{f}(..._)([{a}, {b}, {c}])"),
+        ("f(_,...[b,c])(a)", "{f}(_, ...[{b}, {c}])({a})"), ("f(_,b,...[c])(a)", "{f}(_, {b}, ...[{c}])({a})"),
+        ("f(...[a],_,c)(b)", "{f}(...[{a}], _, {c})({b})")],
 }
 F_LSEC = ("(a f)(b)", "({a} {f})({b})")
 F_RSEC = ("f(b)(a)", "{f}({b})({a})")
